@@ -339,7 +339,7 @@ def risky(ver, t, v):
 
 
 def gen(r, tier):
-    n = {"quick": 2200, "search": 9000, "thorough": 20000}[tier]
+    n = {"quick": 2200, "search": 9000, "thorough": 12000}[tier]
     cases = []
     # systematic part: every primitive after every misaligning prefix, all four encodings
     for p in PRIMS:
